@@ -4,7 +4,7 @@ C09 — an accepted operation changes the lists exactly like the plain-list oper
 import PsdVerif.Model.TreeSpec
 import PsdVerif.Lemmas.TreeRefuse
 
-namespace PsdVerif.Tree
+namespace PsdVerif.TreeSt
 open Spec
 
 theorem abs_eq {s : State} {n : Nat} {k : Id → Kind} {l : Id → List Id}
@@ -237,4 +237,4 @@ theorem glParent_abs {s : State} (i : Inv s) (p : Option Id) (x0 : Id) :
         rw [containerOf_detached]
         exact detached_of_not_listed_by_parent i (fun p' hp' => by rw [hp] at hp'; cases hp'; exact hx)
 
-end PsdVerif.Tree
+end PsdVerif.TreeSt
